@@ -270,6 +270,55 @@ pub fn roundtrip(seed: u64, n: usize, out: &str) {
     }
     for i in 0..n {
         let key = format!("rt/{}", i);
+        // two numbers over the same names in opposite order, loaded one after the other (a loader that keeps anything
+        // from the previous load must not carry the ORDER over)
+        {
+            let n = 2 + r.below(3) as usize;
+            let vs = rand_vars(&mut r, n);
+            let rv: Vec<String> = vs.iter().rev().cloned().collect();
+            let a = Dual::try_new(rand_bits(&mut r), vs.clone(), (0..n).map(|_| rand_bits(&mut r)).collect()).unwrap();
+            let b = Dual::try_new(rand_bits(&mut r), rv.clone(), (0..n).map(|_| rand_bits(&mut r)).collect()).unwrap();
+            let a2 = Dual2::try_new(rand_bits(&mut r), vs.clone(), (0..n).map(|_| rand_bits(&mut r)).collect(), (0..n * n).map(|_| rand_bits(&mut r)).collect()).unwrap();
+            let b2 = Dual2::try_new(rand_bits(&mut r), rv, (0..n).map(|_| rand_bits(&mut r)).collect(), (0..n * n).map(|_| rand_bits(&mut r)).collect()).unwrap();
+            let pk = format!("{}/perm", key);
+            rt_type!(o, pk, "Dual", a.clone(), p_dual, Tagged::Dual, |t| if let Tagged::Dual(x) = t { Some(x) } else { None });
+            rt_type!(o, pk, "Dual", b.clone(), p_dual, Tagged::Dual, |t| if let Tagged::Dual(x) = t { Some(x) } else { None });
+            rt_type!(o, pk, "Dual2", a2.clone(), p_dual2, Tagged::Dual2, |t| if let Tagged::Dual2(x) = t { Some(x) } else { None });
+            rt_type!(o, pk, "Dual2", b2.clone(), p_dual2, Tagged::Dual2, |t| if let Tagged::Dual2(x) = t { Some(x) } else { None });
+            // ... and inside ONE object: spline coefficients over permuted lists
+            let sp = verif::ppspline_dual_wrap(PPSpline::new(1, vec![0.0, 1.0, 2.0], Some(vec![a, b])));
+            rt_type!(o, pk, "PPSplineDual", sp, |s: &PPSplineDual| p_spline(verif::ppspline_dual_inner(s), p_dual), Tagged::PPSplineDual, |t| if let Tagged::PPSplineDual(x) = t { Some(x) } else { None });
+            let sp2 = verif::ppspline_dual2_wrap(PPSpline::new(1, vec![0.0, 1.0, 2.0], Some(vec![a2, b2])));
+            rt_type!(o, pk, "PPSplineDual2", sp2, |s: &PPSplineDual2| p_spline(verif::ppspline_dual2_inner(s), p_dual2), Tagged::PPSplineDual2, |t| if let Tagged::PPSplineDual2(x) = t { Some(x) } else { None });
+        }
+        // the text each Python class hands out from `to_json()` (the #[pymethods] item), read back through the tagged
+        // entry point: it must come back as the SAME kind of object, equal to the original
+        {
+            macro_rules! pyjson {
+                ($ty:expr, $obj:expr, $proj:expr, $tojson:expr, $untag:expr) => {{
+                    let obj = $obj;
+                    let (oc, back) = match guard(|| $tojson(&obj)) {
+                        Outcome::Ok(Ok(txt)) => match guard(|| Tagged::from_json(&txt)) {
+                            Outcome::Ok(Ok(t)) => match $untag(t) { Some(x) => ("ok".to_string(), Some(x)), None => ("load_wrong_type".to_string(), None) },
+                            Outcome::Ok(Err(_)) => ("load_err".to_string(), None),
+                            Outcome::Panic(_) => ("load_panic".to_string(), None),
+                        },
+                        Outcome::Ok(Err(_)) => ("save_err".to_string(), None),
+                        Outcome::Panic(_) => ("save_panic".to_string(), None),
+                    };
+                    let eq = back.as_ref().map(|b| guard(|| *b == obj)).map(|g| matches!(g, Outcome::Ok(true)));
+                    o.emit(&ev(format!("{}/{}/pyjson", key, $ty), $ty, "pyjson", oc, $proj(&obj), back.as_ref().map(|b| $proj(b)), eq));
+                }};
+            }
+            pyjson!("Dual", rand_dual(&mut r), p_dual, dpy::dual_to_json, |t| if let Tagged::Dual(x) = t { Some(x) } else { None });
+            pyjson!("Dual2", rand_dual2(&mut r), p_dual2, dpy::dual2_to_json, |t| if let Tagged::Dual2(x) = t { Some(x) } else { None });
+            pyjson!("FXRates", rand_fx(&mut r), p_fx, rpy::to_json, |t| if let Tagged::FXRates(x) = t { Some(x) } else { None });
+            if i % 3 == 0 {
+                pyjson!("Cal", rand_cal(&mut r), p_cal, cpy::cal_json, |t| if let Tagged::Cal(x) = t { Some(x) } else { None });
+                pyjson!("UnionCal", UnionCal::new(vec![rand_cal(&mut r)], Some(vec![rand_cal(&mut r)])), p_union, cpy::union_json, |t| if let Tagged::UnionCal(x) = t { Some(x) } else { None });
+                pyjson!("NamedCal", NamedCal::try_new(*r.pick(&["tgt", "nyc,ldn|fed", "bus|all"])).unwrap(), p_named, cpy::named_json, |t| if let Tagged::NamedCal(x) = t { Some(x) } else { None });
+            }
+        }
         // pickle protocol of every class that has one
         {
             let d = rand_dual(&mut r);
@@ -555,12 +604,15 @@ pub fn mutate_n(seed: u64, double: usize, out: &str) {
     let ucal = UnionCal::new(vec![cal.clone()], Some(vec![cal.clone()]));
     let ncal = NamedCal::try_new("tgt,ldn|fed").unwrap();
     let fx = FXRates::try_new(vec![FXRate::try_new("eur", "usd", Number::F64(1.1), None).unwrap(), FXRate::try_new("usd", "jpy", Number::Dual(Dual::new(110.0, vec!["q".into()])), None).unwrap()], Some(Ccy::try_new("usd").unwrap())).unwrap();
+    // ... and a market whose quotes all carry the same settlement date (so that one of them can be altered)
+    let fxd = FXRates::try_new(vec![FXRate::try_new("eur", "usd", Number::F64(1.1), Some(dn(20000))).unwrap(), FXRate::try_new("usd", "jpy", Number::F64(110.0), Some(dn(20000))).unwrap(),
+                                    FXRate::try_new("gbp", "usd", Number::F64(1.3), Some(dn(20000))).unwrap()], None).unwrap();
     let curve = rand_curve(&mut r, 1);
     let sf = verif::ppspline_f64_wrap(PPSpline::new(3, vec![0., 0., 0., 1., 2., 2., 2.], Some(vec![1., 2., 3., 4.])));
     let sd = verif::ppspline_dual_wrap(PPSpline::new(2, vec![0., 0., 1., 1.], Some(vec![d1.clone(), d1.clone()])));
     let sd2 = verif::ppspline_dual2_wrap(PPSpline::new(2, vec![0., 0., 1., 1.], Some(vec![d2.clone(), d2.clone()])));
     let docs: Vec<(&str, Tagged)> = vec![("Dual", Tagged::Dual(d1)), ("Dual2", Tagged::Dual2(d2)), ("Cal", Tagged::Cal(cal)), ("UnionCal", Tagged::UnionCal(ucal)),
-        ("NamedCal", Tagged::NamedCal(ncal)), ("FXRates", Tagged::FXRates(fx)), ("Curve", Tagged::Curve(curve)), ("PPSplineF64", Tagged::PPSplineF64(sf)),
+        ("NamedCal", Tagged::NamedCal(ncal)), ("FXRates", Tagged::FXRates(fx)), ("FXRates", Tagged::FXRates(fxd)), ("Curve", Tagged::Curve(curve)), ("PPSplineF64", Tagged::PPSplineF64(sf)),
         ("PPSplineDual", Tagged::PPSplineDual(sd)), ("PPSplineDual2", Tagged::PPSplineDual2(sd2))];
     for (ty, t) in docs {
         let text = t.to_json().expect("valid document");
@@ -698,12 +750,16 @@ pub fn ctors(out: &str) {
     }
     // FXRates with degenerate inputs
     let mk = |l: &str, r_: &str| FXRate::try_new(l, r_, Number::F64(1.5), None).unwrap();
-    let sets: Vec<(&str, Vec<FXRate>, Option<&str>)> = vec![("empty", vec![], None), ("single", vec![mk("eur", "usd")], None), ("dup", vec![mk("eur", "usd"), mk("eur", "usd")], None),
+    let mks = |l: &str, r_: &str, s_: Option<i64>| FXRate::try_new(l, r_, Number::F64(1.5), s_.map(dn)).unwrap();
+    let sets: Vec<(&str, Vec<FXRate>, Option<&str>)> = vec![("dated-tree", vec![mks("eur", "usd", Some(20000)), mks("usd", "jpy", Some(20000))], None),
+        ("dated-then-undated", vec![mks("eur", "usd", Some(20000)), mks("usd", "jpy", None)], None), ("undated-then-dated", vec![mks("eur", "usd", None), mks("usd", "jpy", Some(20000))], None),
+        ("two-dates", vec![mks("eur", "usd", Some(20000)), mks("usd", "jpy", Some(20001))], None), ("dated-undated-dated", vec![mks("eur", "usd", Some(20000)), mks("usd", "jpy", None), mks("gbp", "usd", Some(20000))], None),
+        ("empty", vec![], None), ("single", vec![mk("eur", "usd")], None), ("dup", vec![mk("eur", "usd"), mk("eur", "usd")], None),
         ("rev", vec![mk("eur", "usd"), mk("usd", "eur")], None), ("cycle", vec![mk("eur", "usd"), mk("usd", "jpy"), mk("jpy", "eur")], None),
         ("under", vec![mk("eur", "usd"), mk("gbp", "jpy")], None), ("base-out", vec![mk("eur", "usd")], Some("cad")), ("tree", vec![mk("eur", "usd"), mk("usd", "jpy")], Some("jpy"))];
     for (nm, qs, base) in sets {
         let res = guard(|| FXRates::try_new(qs.clone(), base.map(|b| Ccy::try_new(b).unwrap())));
-        o.emit(&json!({"key": format!("ctor/FXRates/{}", nm), "op":"ctor", "fn":"FXRates::try_new", "case": nm, "tree": nm == "single" || nm == "tree",
+        o.emit(&json!({"key": format!("ctor/FXRates/{}", nm), "op":"ctor", "fn":"FXRates::try_new", "case": nm, "tree": nm == "single" || nm == "tree" || nm == "dated-tree",
                        "o": match &res { Outcome::Ok(Ok(_)) => "ok", Outcome::Ok(Err(_)) => "err", Outcome::Panic(_) => "panic" },
                        "shape": match &res { Outcome::Ok(Ok(f)) => shape_fx(f), _ => json!({"t":"none"}) }}));
     }
